@@ -316,3 +316,33 @@ func callValue(v ssa.Value) *ssa.Call {
 	c, _ := v.(*ssa.Call)
 	return c
 }
+
+// mustPassFromBlock: every path from the start of block b to a normal Return executes an instruction matching through.
+func mustPassFromBlock(b *ssa.BasicBlock, through func(ssa.Instruction) bool) (bool, ssa.Instruction) {
+	seen := map[*ssa.BasicBlock]bool{b: true}
+	work := []*ssa.BasicBlock{b}
+	for len(work) > 0 {
+		cur := work[len(work)-1]
+		work = work[:len(work)-1]
+		stopped := false
+		for _, ins := range cur.Instrs {
+			if through(ins) {
+				stopped = true
+				break
+			}
+			if r, ok := ins.(*ssa.Return); ok {
+				return false, r
+			}
+		}
+		if stopped {
+			continue
+		}
+		for _, n := range cur.Succs {
+			if !seen[n] {
+				seen[n] = true
+				work = append(work, n)
+			}
+		}
+	}
+	return true, nil
+}
